@@ -9,7 +9,9 @@ twin of the WHATWG transcription that the oracle uses.
 Oracle (implementation only): every string the real validate_next_page_url accepts must be parsed by the WHATWG twin to
 one of the allowed hosts — both the raw string and the Location header the real aiohttp.web.HTTPFound produces from it.
 """
-from harness.core import Corr, Disagreement, Failure, coq_eval, listlit, nlit
+import ast
+
+from harness.core import Corr, Disagreement, Failure, TieBroken, coq_eval, listlit, nlit
 
 ID = 'C29'
 SRC = 'auth/auth/auth.py'
@@ -39,6 +41,67 @@ ASSUMPTIONS = ['deployment host names are lower-case LDH names (not localhost, l
 D_SUB = ['batch.hail.example', 'auth.hail.example', 'ci.hail.example', 'monitoring.hail.example']
 D_BASE = ['internal.hail.example']
 HEADER = 'From HailV Require Import Common.Prelude Redirect.Model.'
+
+
+def generate(ctx):
+    """Structural tie for the USE of the validator: in auth.py every value that reaches `web.HTTPFound(next_page)` or
+    `session['next'] = next_page` is a local `next_page` whose every assignment is immediately followed by
+    `validate_next_page_url(next_page)`; and the validator itself still has the shape the model was written for."""
+    src = ctx.read_repo(SRC)
+    tree = ast.parse(src)
+    users = 0
+    for fn in ast.walk(tree):
+        if not isinstance(fn, (ast.FunctionDef, ast.AsyncFunctionDef)) or fn.name == 'validate_next_page_url':
+            continue
+        uses = [n for n in ast.walk(fn) if isinstance(n, ast.Name) and n.id == 'next_page' and isinstance(n.ctx, ast.Load)]
+        sinks = [n for n in ast.walk(fn) if (isinstance(n, ast.Call) and ast.unparse(n.func).endswith('HTTPFound') and n.args
+                                             and not (isinstance(n.args[0], ast.Call) or isinstance(n.args[0], ast.Constant)
+                                                      or isinstance(n.args[0], ast.JoinedStr)))]
+        for k in sinks:
+            a = k.args[0]
+            if not (isinstance(a, ast.Name) and a.id in ('next_page', 'creating_url')) and 'next' in ast.unparse(a):
+                raise TieBroken('use-sites', f'{fn.name}: redirect to `{ast.unparse(a)}` is not a validated local')
+        if not uses:
+            continue
+        users += 1
+
+        def blocks(node):
+            for field in ('body', 'orelse', 'finalbody'):
+                b = getattr(node, field, None)
+                if isinstance(b, list) and b and isinstance(b[0], ast.stmt):
+                    yield b
+                    for st in b:
+                        yield from blocks(st)
+            for h in getattr(node, 'handlers', []):
+                yield from blocks(h)
+        n_assign = 0
+        for b in blocks(fn):
+            for i, st in enumerate(b):
+                tg = [t for t in getattr(st, 'targets', []) if isinstance(t, ast.Name) and t.id == 'next_page']
+                if isinstance(st, (ast.AugAssign, ast.AnnAssign)) and isinstance(st.target, ast.Name) and st.target.id == 'next_page':
+                    raise TieBroken('use-sites', f'{fn.name}: unsupported assignment to next_page')
+                if tg:
+                    n_assign += 1
+                    nxt = b[i + 1] if i + 1 < len(b) else None
+                    if nxt is None or ast.unparse(nxt) != 'validate_next_page_url(next_page)':
+                        raise TieBroken('use-sites', f'{fn.name} line {st.lineno}: `next_page` is assigned without being validated by the next statement')
+        if n_assign == 0 and any(a.arg == 'next_page' for a in fn.args.args):
+            raise TieBroken('use-sites', f'{fn.name}: next_page arrives as a parameter')
+        if n_assign == 0:
+            raise TieBroken('use-sites', f'{fn.name}: next_page used but never assigned locally')
+    if users == 0:
+        raise TieBroken('use-sites', 'no handler uses next_page any more')
+    fn = next((n for n in ast.walk(tree) if isinstance(n, ast.FunctionDef) and n.name == 'validate_next_page_url'), None)
+    if fn is None:
+        raise TieBroken('validator-shape', 'validate_next_page_url not found')
+    want = ["if not next_page:\n    raise web.HTTPBadRequest(text='Invalid next page: empty')",
+            "valid_next_services = ['batch', 'auth', 'ci', 'monitoring']",
+            "valid_next_domains = [urlparse(deploy_config.external_url(s, '/')).netloc for s in valid_next_services]",
+            'actual_next_page_domain = urlparse(next_page).netloc',
+            "if actual_next_page_domain not in valid_next_domains:\n    raise web.HTTPBadRequest(text='Invalid next page.')"]
+    got = [ast.unparse(st) for st in fn.body]
+    if got != want:
+        ctx.notes.append('validate_next_page_url no longer has the shape the model was written for; relying on the correspondence')
 
 
 def cps(s):
@@ -189,11 +252,39 @@ def oracle(ctx, budget):
                                          f'{"the Location header" if which == "twin_location" else "the string"} gives {t}',
                                          {'string': cps(s), 'repr': repr(s), 'hosts': hosts}, 'host in ' + str(hosts),
                                          {'parsed': t, 'location': r['location'] if isinstance(r['location'], str) else ''.join(map(chr, r['location']))}))
+    # the use sites: the four real handlers that consume a next-page URL
+    hstrings = []
+    for strings, res, hosts in runs[:1]:
+        acc = [s for s, r in zip(strings, res['results']) if r['accepted'] is True][:60]
+        rej = [s for s, r in zip(strings, res['results']) if r['accepted'] is not True and s][:ctx.scale(140, 1500)]
+        hstrings = acc + rej + ['https://evil.com/', '//evil.com', '/\\evil.com', 'https://' + hosts[0] + '@evil.com/', '//evil.com\\@' + hosts[0]]
+        hres = ctx.run_impl('c29_redirect.py', {'strings': [], 'handler_strings': [cps(s) for s in hstrings], 'domain': 'hail.example',
+                                                'base_path': None}, timeout=600)['handlers']
+        idp = 'accounts.idp.example'
+        stored_all = sorted({''.join(chr(c) for c in o['session_next']) for hr in hres for o in hr.values() if o.get('session_next') is not None})
+        twin_of = {st: r['twin_raw'] for st, r in zip(stored_all, _impl(ctx, stored_all, None)['results'])} if stored_all else {}
+        for s, hr in zip(hstrings, hres):
+            for name, o in hr.items():
+                n += 1
+                if o.get('session_next') is not None:
+                    # a next-page URL was stored for after the login: it must be one the browser takes to an allowed host
+                    stored = ''.join(chr(c) for c in o['session_next'])
+                    t = twin_of[stored]
+                    if not (t[0] == 'host' and t[1] in hosts):
+                        fails.append(Failure(f'use:{name}:stores-foreign-next', f'{name} stores next={stored!r} in the session although the browser '
+                                             f'would take it to {t}', {'string': cps(s), 'repr': repr(s), 'hosts': hosts, 'handler': name},
+                                             'HTTP 400', o))
+                if o['outcome'] == 'redirect':
+                    t = o['twin']
+                    if not (t[0] == 'host' and (t[1] in hosts or t[1] == idp)):
+                        fails.append(Failure(f'use:{name}:redirects-foreign', f'{name} redirects to {"".join(map(chr, o["location"]))!r} '
+                                             f'(browser host {t}) for next={s!r}', {'string': cps(s), 'repr': repr(s), 'hosts': hosts, 'handler': name},
+                                             'redirect to an allowed host or HTTP 400', o))
     by = {}
     for f in fails:
         if f.key not in by or len(f.case['string']) < len(by[f.key].case['string']):
             by[f.key] = f
-    return list(by.values()), {'evaluations': n, 'distinct_nontrivial': n_acc,
+    return list(by.values()), {'evaluations': n, 'distinct_nontrivial': n_acc, 'histograms': {'handler_strings': len(hstrings)},
                                'rule': 'oracle: strings accepted by the real validate_next_page_url (non-trivial), raw and as Location header of the real '
                                        'aiohttp HTTPFound, parsed by the WHATWG twin'}
 
